@@ -9,6 +9,44 @@ verus! {
 //@ include lib/base.rs
 //@ include lib/lvr.rs
 
+//@ include lib/divspec.rs
+//@ import knuth div_nxm
+//@ extract src/algorithms/mod.rs trait DoubleWord
+pub trait DoubleWord<T>: Sized + Copy {
+    fn join(high: T, low: T) -> Self;
+    fn add(a: T, b: T) -> Self;
+    fn mul(a: T, b: T) -> Self;
+    fn muladd(a: T, b: T, c: T) -> Self;
+    fn muladd2(a: T, b: T, c: T, d: T) -> Self;
+    fn high(self) -> T;
+    fn low(self) -> T;
+    fn split(self) -> (T, T);
+}
+//@ end
+impl DoubleWord<u64> for u128 {
+//@ import kernels join
+//@ import kernels add
+//@ import kernels mul
+//@ import kernels muladd
+//@ import kernels muladd2
+//@ import kernels high
+//@ import kernels low
+//@ import kernels split
+}
+// ASSUMED (label A): un-normalised n-by-1 / n-by-2 drivers (raw get_unchecked accesses; not yet under proof)
+#[verifier::external_body]
+pub fn div_nx1(limbs: &mut [u64], divisor: u64) -> (r: u64)
+    requires divisor != 0, old(limbs).len() >= 1, old(limbs)@[old(limbs).len() - 1] != 0
+    ensures final(limbs).len() == old(limbs).len(), r < divisor,
+        lvr(old(limbs)@, 0, old(limbs).len() as int) == lvr(final(limbs)@, 0, old(limbs).len() as int) * divisor as int + r as int
+{ unimplemented!() }
+#[verifier::external_body]
+pub fn div_nx2(limbs: &mut [u64], divisor: u128) -> (r: u128)
+    requires divisor as int >= B, old(limbs).len() >= 1, old(limbs)@[old(limbs).len() - 1] != 0
+    ensures final(limbs).len() == old(limbs).len(), r < divisor,
+        lvr(old(limbs)@, 0, old(limbs).len() as int) == lvr(final(limbs)@, 0, old(limbs).len() as int) * divisor as int + r as int
+{ unimplemented!() }
+
 // ASSUMED (label A) for now: the dispatcher's contract (its kernels div_nxm / div_2x1 / div_3x2 / reciprocal_2 are proved
 // in units knuth and div_small; the trimming and dispatch logic of `div` itself is not yet under proof).
 //@ extract src/algorithms/div/mod.rs fn div
